@@ -15,7 +15,6 @@ import (
 	"net"
 	"runtime"
 	"strconv"
-	"strings"
 	"sync"
 	"time"
 
@@ -318,7 +317,7 @@ func (x *runner) runPipe(c pipeCase, origin string) {
 		}
 		if len(terms) == len(pk) {
 			sk := kase{Kind: "pipe", Pipe: &c}
-			x.pc.Add(fmt.Sprintf("mkscase %s %s %s [%s] 0%%nat", coqN(c.BS), coqN(d.seq0), coqOps(d.ops), strings.Join(terms, "; ")), sk)
+			x.pc.Add(fmt.Sprintf("mkscase %s %s %s %s 0%%nat", coqN(c.BS), coqN(d.seq0), coqOps(d.ops), coqList(terms)), sk)
 		}
 	}
 }
